@@ -228,6 +228,7 @@ func c17ResponseRun(t *testing.T, tape *simrt.Tape, o simwork.Opts) *simwork.Res
 	res.Sample = c.sample()
 	obs := &c17RespObs{}
 
+	netMark := verifNetStart()
 	p := simwork.Bubble(t, func(t *testing.T) {
 		simnet.Reset()
 		c17ResetPools()
@@ -272,6 +273,7 @@ func c17ResponseRun(t *testing.T, tape *simrt.Tape, o simwork.Opts) *simwork.Res
 		obs.Feedback = append([]string{}, lines.lines...)
 		lines.mu.Unlock()
 	})
+	verifNetFaults(res, netMark)
 	if p != nil {
 		c17AddViolation(res, "c17/panic", "panic outside the server's handler goroutines: %v", p)
 	}
